@@ -88,6 +88,16 @@ Example C12_nonvacuous :
   match orun c ostate0 xs with Some s => quiescent s | None => false end = true.
 Proof. vm_compute. reflexivity. Qed.
 
+(* ... and a coroutine that ends with a CancelledError of its own in 'wait' mode: reported as
+   cancelled, the next event still runs *)
+Example C12_selfcancel_nonvacuous :
+  let c := {| o_mode := MWait; o_guard := 0; o_selfcancel := [1%nat] |} in
+  let xs := [OPut 0 1; OPut 0 2; OOut 0 1; OStart 0 1; OEnd 100000 1 OCancelled; OResult 100000 1 OCancelled;
+             OOut 100000 0; OOut 100000 1; OStart 100000 2; OEnd 200000 2 OSuccess; OResult 200000 2 OSuccess;
+             OOut 200000 0] in
+  match orun c ostate0 xs with Some s => quiescent s | None => false end = true.
+Proof. vm_compute. reflexivity. Qed.
+
 Print Assumptions C12_one_result_per_put.
 Print Assumptions C12_accounting_invariant.
 Print Assumptions C12_wait_one_at_a_time.
